@@ -250,6 +250,9 @@ def sym_sqrt(x):
     return SymReal(s)
 
 
+NARROW_INT_WRAP = False
+
+
 def _nominal_dtype(a):
     """the machine type an object array stands for (tag set by astype or by
     the harness), looked up along the chain of views"""
@@ -334,6 +337,32 @@ class SymNDArray(_np.ndarray, metaclass=_NDMeta):
     sqrt-based ones (std) on *object* arrays of symbolic scalars build z3
     terms instead of forking on every comparison.  Numeric dtypes: numpy."""
     _real_base = _np.ndarray
+
+    def _wrapped(self, o, r):
+        """32-bit (or narrower) integer storage: when a harness switches
+        NARROW_INT_WRAP on and this array stands for such integers, a product
+        with a Python/numpy integer stays in that type and wraps, as numpy's
+        does (the harness declares the type with `_as_dtype`)"""
+        if not NARROW_INT_WRAP or self.dtype != object or \
+                isinstance(o, bool) or not isinstance(o, (int, _np.integer)):
+            return r
+        dt = _nominal_dtype(self)
+        if dt is None or dt.kind != 'i' or dt.itemsize > 4 or \
+                not isinstance(r, _np.ndarray) or r.dtype != object:
+            return r
+        half = 2 ** (8 * dt.itemsize - 1)
+        out = _np.empty(r.shape, dtype=object).view(SymNDArray)
+        of = out.reshape(-1)
+        for i, x in enumerate(_np.asarray(r, dtype=object).reshape(-1)):
+            of[i] = (x + half) % (2 * half) - half
+        out._as_dtype = dt
+        return out
+
+    def __mul__(self, o):
+        return self._wrapped(o, _np.ndarray.__mul__(self, o))
+
+    def __rmul__(self, o):
+        return self._wrapped(o, _np.ndarray.__rmul__(self, o))
 
     def __array_finalize__(self, obj):
         # the machine type an object array stands for travels with its views
